@@ -518,6 +518,21 @@ func tailCallsFamily(budget time.Duration) mc.Family {
 		prog{"/p { /p load 8 /q load put 1 2 q } def /q { 3 } def /q { 4 } def p", "1 2 {4}"},
 		prog{"/p { /p load 8 /add load put 1 2 3 } def p", "3"},
 	)
+	// a name whose value is an executable name is resolved again, at the time it is executed
+	progs = append(progs,
+		prog{"/plus {add} 0 get def 1 2 plus", "3"},
+		prog{"/f { 5 } def /g {f} 0 get def g /f { 6 } def g", "5 6"},
+		prog{"/e {exit} 0 get def { 1 e 2 } loop", "1"},
+		prog{"/a {b} 0 get def /b {c} 0 get def /c { 9 } def a {a} exec", "9 9"},
+		prog{"/s {stop} 0 get def 1 s 2", "1"},
+	)
+	// exit and stop keep their meaning inside an error handler installed by the program
+	progs = append(progs,
+		prog{"/n 0 def errordict /rangecheck { exit } put mark 3 { 1 1 5 { pop /n n 1 add def (abc) 7 get } for /n n 100 add def } repeat cleartomark n", "303"},
+		prog{"/n 0 def errordict /typecheck { exit } put mark { /n n 1 add def 1 (a) add } loop cleartomark n", "1"},
+		prog{"errordict /typecheck { stop } put mark 1 (a) add 5", "-mark- 1 (a)"},
+		prog{"errordict /stackunderflow { exit } put 1 2 5 { pop } repeat 7", "7"},
+	)
 	for _, h := range handlers {
 		for _, l := range loops {
 			progs = append(progs, prog{h + l.text, l.want})
@@ -525,7 +540,7 @@ func tailCallsFamily(budget time.Duration) mc.Family {
 	}
 	return mc.Family{
 		Name: "tail-calls-and-exit-handlers", Items: len(progs), Budget: budget,
-		Rule: fmt.Sprintf("%d programs with a closed-form result: loops made of a procedure that calls itself (directly, through a second procedure, through a helper that returns first) as the last element of its body, for 1..5000 rounds (such a call replaces the finished body and does not nest); names that stand last in a body called 3n times; recursion through if / ifelse for <= 45 rounds; %d loops left by exit (every loop operator, exit inside if / ifelse / exec / a named procedure, nested loops) x %d sets of handlers installed in errordict by the program (none; invalidexit; invalidexit + others; handleerror; a handler that itself exits): exit is not an error and never reaches a handler; 7 programs in which a name is bound to the null object or to a file and hides an older definition; 7 procedures that store into their own body ahead of the point of execution (the last element included); non-trivial = all", len(progs), len(loops), len(handlers)),
+		Rule: fmt.Sprintf("%d programs with a closed-form result: loops made of a procedure that calls itself (directly, through a second procedure, through a helper that returns first) as the last element of its body, for 1..5000 rounds (such a call replaces the finished body and does not nest); names that stand last in a body called 3n times; recursion through if / ifelse for <= 45 rounds; %d loops left by exit (every loop operator, exit inside if / ifelse / exec / a named procedure, nested loops) x %d sets of handlers installed in errordict by the program (none; invalidexit; invalidexit + others; handleerror; a handler that itself exits): exit is not an error and never reaches a handler; 7 programs in which a name is bound to the null object or to a file and hides an older definition; 7 procedures that store into their own body ahead of the point of execution (the last element included); 5 names whose value is an executable name (resolved again when executed); 4 error handlers installed by the program that exit or stop; non-trivial = all", len(progs), len(loops), len(handlers)),
 		Body: func(c *mc.Ctx, item int) mc.Verdict {
 			p := progs[item]
 			intp := postscript.NewInterpreter()
